@@ -134,6 +134,8 @@ pub struct Gen<'r> {
     pub allow_host: bool,
     /// Emit observations (disable for modules that are only exporters).
     pub allow_emit: bool,
+    /// Names bound by load(): frozen values, never the target of a mutating statement.
+    pub frozen: Vec<String>,
 }
 
 const STRS: &[&str] = &[
@@ -160,6 +162,7 @@ impl<'r> Gen<'r> {
             prefix: prefix.to_owned(),
             allow_host: true,
             allow_emit: true,
+            frozen: Vec::new(),
         }
     }
 
@@ -174,6 +177,16 @@ impl<'r> Gen<'r> {
 
     fn of_kind(&mut self, k: Kind) -> Option<String> {
         let c: Vec<&(String, Kind)> = self.vars.iter().filter(|(_, kk)| *kk == k || (k == Kind::Func1 && *kk == Kind::PureFunc1)).collect();
+        if c.is_empty() {
+            None
+        } else {
+            Some(c[self.rng.usize(c.len())].0.clone())
+        }
+    }
+
+    /// A variable of that kind that may be mutated (not a loaded, frozen value).
+    fn of_kind_mut(&mut self, k: Kind) -> Option<String> {
+        let c: Vec<&(String, Kind)> = self.vars.iter().filter(|(n, kk)| *kk == k && !self.frozen.contains(n)).collect();
         if c.is_empty() {
             None
         } else {
@@ -372,7 +385,10 @@ impl<'r> Gen<'r> {
         for (n, k) in names {
             let local = self.fresh("ld");
             parts.push(format!("{local} = \"{n}\""));
-            self.bind(&local, *k);
+            // A loaded function with side effects on its own (now frozen) state fails when called.
+            let k2 = if matches!(k, Kind::Func1 | Kind::Func0) { Kind::Other } else { *k };
+            self.bind(&local, k2);
+            self.frozen.push(local.clone());
         }
         self.stmts.push(format!("load(\"{module}\", {})", parts.join(", ")));
     }
@@ -484,7 +500,7 @@ impl<'r> Gen<'r> {
                 }
             }
             14 | 15 if self.feat.mutation => {
-                if let Some(l) = self.of_kind(Kind::List) {
+                if let Some(l) = self.of_kind_mut(Kind::List) {
                     let mut allow = true;
                     let e = self.elem(&mut allow);
                     let s = match self.rng.below(8) {
@@ -501,7 +517,7 @@ impl<'r> Gen<'r> {
                 }
             }
             16 if self.feat.mutation => {
-                if let Some(d) = self.of_kind(Kind::Dict) {
+                if let Some(d) = self.of_kind_mut(Kind::Dict) {
                     let k = self.key();
                     let mut allow = true;
                     let e = self.elem(&mut allow);
@@ -516,7 +532,7 @@ impl<'r> Gen<'r> {
                 }
             }
             17 if self.feat.mutation && self.feat.sets => {
-                if let Some(s) = self.of_kind(Kind::Set) {
+                if let Some(s) = self.of_kind_mut(Kind::Set) {
                     let k = self.key();
                     let st = match self.rng.below(3) {
                         0 => format!("{s}.add({k})"),
@@ -529,17 +545,17 @@ impl<'r> Gen<'r> {
             18 if self.feat.cycles && self.feat.mutation => {
                 match self.rng.below(3) {
                     0 => {
-                        if let Some(l) = self.of_kind(Kind::List) {
+                        if let Some(l) = self.of_kind_mut(Kind::List) {
                             self.stmts.push(format!("{l}.append({l})"));
                         }
                     }
                     1 => {
-                        if let Some(d) = self.of_kind(Kind::Dict) {
+                        if let Some(d) = self.of_kind_mut(Kind::Dict) {
                             self.stmts.push(format!("{d}[\"self\"] = {d}"));
                         }
                     }
                     _ => {
-                        if let (Some(l), Some(d)) = (self.of_kind(Kind::List), self.of_kind(Kind::Dict)) {
+                        if let (Some(l), Some(d)) = (self.of_kind_mut(Kind::List), self.of_kind_mut(Kind::Dict)) {
                             self.stmts.push(format!("{l}.append({d})"));
                             self.stmts.push(format!("{d}[\"back\"] = {l}"));
                         }
@@ -552,6 +568,9 @@ impl<'r> Gen<'r> {
                     let n = self.fresh("l");
                     if self.rng.bool() {
                         self.stmts.push(format!("{n} = {l}"));
+                        if self.frozen.contains(&l) {
+                            self.frozen.push(n.clone());
+                        }
                     } else {
                         let sc = self.scalar();
                         self.stmts.push(format!("{n} = list({l}) + [{sc}]"));
